@@ -19,7 +19,7 @@ structure Ctx where
 
 def Ctx.mk' : Ctx :=
   let cfg := mkConfig
-  ⟨cfg, dlogArray, cfg.srs.toArray⟩
+  ⟨cfg, #[], cfg.srs.toArray⟩
 
 def frOfHexBE (s : String) : Option Fr := do
   let b ← bytesOfHex s
@@ -298,7 +298,7 @@ def opSerde (ctx : Ctx) (data chunks eofWithData failAfter : String) : String :=
   match bytesOfHex data, (splitList "," chunks).mapM String.toNat? with
   | some b, some cs =>
     let r : Reader := ⟨b, cs, eofWithData = "1", failAfter.toNat?, 0⟩
-    match mpRead (Fp.sqrtPrecomp ctx.lut) r with
+    match mpRead (Fp.sqrtPrecomp) r with
     | .ok p => s!"ok {hexOfBytes p.bytes}"
     | .error _ => "err"
   | _, _ => "bad-op"
@@ -307,7 +307,7 @@ def opSerdeIpa (ctx : Ctx) (data chunks eofWithData failAfter : String) : String
   match bytesOfHex data, (splitList "," chunks).mapM String.toNat? with
   | some b, some cs =>
     let r : Reader := ⟨b, cs, eofWithData = "1", failAfter.toNat?, 0⟩
-    match ipaRead (Fp.sqrtPrecomp ctx.lut) r with
+    match ipaRead (Fp.sqrtPrecomp) r with
     | (.ok p, r') => s!"ok {hexOfBytes p.bytes} {r'.delivered}"
     | (.error _, _) => "err"
   | _, _ => "bad-op"
@@ -317,7 +317,7 @@ def opReadPoint (ctx : Ctx) (data chunks eofWithData failAfter : String) : Strin
   match bytesOfHex data, (splitList "," chunks).mapM String.toNat? with
   | some b, some cs =>
     let r : Reader := ⟨b, cs, eofWithData = "1", failAfter.toNat?, 0⟩
-    match readPoint (Fp.sqrtPrecomp ctx.lut) r with
+    match readPoint (Fp.sqrtPrecomp) r with
     | (.ok p, r') => s!"ok {hexOfBytes p.bytes} {r'.delivered}"
     | (.error _, _) => "err"
   | _, _ => "bad-op"
@@ -407,7 +407,7 @@ def opFpSqrt (ctx : Ctx) (v : String) : String :=
   | some v =>
     -- the mirror of the table-driven algorithm must agree with Tonelli–Shanks up to sign
     let a := fpCanonRoot (Fp.sqrtRef v)
-    let b := fpCanonRoot (Fp.sqrtPrecomp ctx.lut v)
+    let b := fpCanonRoot (Fp.sqrtPrecomp v)
     if a = b then a else s!"model-internal-disagreement {a} {b}"
   | none => "bad-op"
 
